@@ -184,7 +184,41 @@ def _expected_exc(kind, idx):
     return (type(e).__name__, repr(e.args))
 
 
+def c04_stress_strategy(ctx):
+    """Thread backend, 1 us switch interval, failing calls followed by clean ones on the same object: the abort path
+    races with dispatching callbacks and with the caller's own pre-dispatch loop."""
+    @st.composite
+    def calls(draw):
+        out = []
+        for _ in range(draw(st.integers(4, 10))):
+            n = draw(st.sampled_from([20, 60, 200, 400]))
+            fail = {}
+            if draw(st.integers(0, 1)):
+                for idx in draw(st.lists(st.integers(0, n - 1) | st.integers(0, 5), min_size=1, max_size=2, unique=True)):
+                    fail[str(idx)] = draw(st.sampled_from(["value", "key", "custom", "os"]))
+            out.append({"n": n, "fail": fail, "sleeps": draw(st.sampled_from([[0], [0, 0, 0.3], [0.2]])), "gen_input": draw(st.booleans())})
+        return out
+    base = st.fixed_dictionaries({
+        "mode": st.just("real"), "stress": st.just(True), "backend": st.just("threading"),
+        "n_jobs": st.sampled_from([2, 3, 4, 8]), "batch_size": st.sampled_from([1, 1, 2, "auto"]),
+        "pre_dispatch": st.sampled_from([1, "n_jobs", "2*n_jobs", 50, 1000, "all"]),
+        "return_as": st.sampled_from(["list", "list", "generator", "generator_unordered"]), "managed": st.booleans()})
+    return st.tuples(base, calls()).map(lambda t: {**t[0], "calls": t[1]})
+
+
 def run_c04(spec):
+    import sys
+    if spec.get("stress"):
+        old = sys.getswitchinterval()
+        sys.setswitchinterval(1e-6)
+        try:
+            return _run_c04(spec)
+        finally:
+            sys.setswitchinterval(old)
+    return _run_c04(spec)
+
+
+def _run_c04(spec):
     warnings.simplefilter("ignore")
     scratch = os.environ.get("VF_SCRATCH", "/tmp")
     logpath = os.path.join(scratch, "real-%d.log" % os.getpid())
@@ -215,6 +249,8 @@ def run_c04(spec):
                                                                                       " (the previous call failed)" if prev_failed else ""),
                                     signature=["real-clean-call-raises"])
                 want = [("r", base + i, (base + i) % 3) for i in range(call["n"])]
+                if spec["return_as"] == "generator_unordered":
+                    val, want = sorted(val), sorted(want)
                 if val != want:
                     raise Violation("%s returned %r, expected %r%s" % (where, val[:30], want[:30], " (the previous call failed)" if prev_failed else ""),
                                     signature=["real-leftover" if prev_failed else "real-results"])
@@ -229,7 +265,7 @@ def run_c04(spec):
                 pass
         if os.path.exists(logpath):
             os.unlink(logpath)
-    return {"nontrivial": nontrivial, "classes": ["real", "real-backend=" + spec["backend"]]}
+    return {"nontrivial": nontrivial, "classes": ["real", "real-backend=" + spec["backend"]] + (["switch-interval-stress"] if spec.get("stress") else [])}
 
 
 # ---- C16 ----------------------------------------------------------------------------------------------
